@@ -39,11 +39,11 @@ CLAIMED = {
             "(incl. cancellation and generator close) in SEQ and virtual-time ASYNC worlds; identity oracle on "
             "current_action() after every step",
             "Seeded exploration: after every operation and at every scope entry/exit current_action() must be "
-            "the very Action object on top of the model's stack; parsed forest of the tap equals the model forest.",
+            "the very Action object on top of the model's stack; in the parsed log every action and message of the program is the child of the action the model says (structure only: no field values, no outcomes; messages eliot logs on its own account may come on top).",
             "Trusted: interpreter/model stack discipline.",
             "DESIGN.md 3/C04"),
     "C05": ("deterministic simulation over schedules: baton-passed real threads pre-empted at eliot source lines, "
-            "virtual-time asyncio tasks with drawn delays; per-actor context identity oracle, forest refinement, "
+            "virtual-time asyncio tasks with drawn delays; per-actor context identity oracle, parent/child structure of the parsed log against the model, "
             "cross-schedule equality of canonical forests",
             "Seeded exploration of interleavings of structured concurrent programs (threads, preserve_context, "
             "serialize/continue_task, asyncio tasks); 10% of programs re-executed under 3 more schedules.",
@@ -115,7 +115,7 @@ CLAIMED = {
             "DESIGN.md 3/C13"),
     "C15": ("deterministic simulation of generator drivers: seeded interleavings of next/send/throw/close over 1-4 "
             "decorated generators from changing contexts; per-step context identity oracle, transparency by object "
-            "identity, forest refinement",
+            "identity, parent/child structure of the parsed log against the model",
             "Seeded exploration of generator bodies x driver schedules; the wrapper under eliot.twisted.inline_callbacks "
             "is exercised directly (Twisted absent).",
             "Trusted: the scripted bodies' own bookkeeping of which body is running (PEP 380 delegation written out).",
